@@ -121,6 +121,10 @@ type Runner struct {
 	DB   *RecDB
 	BC   *core.BlockChain
 	last common.Hash // last observed in-memory head (kept while no chain object is alive)
+	// Retry: how often an InsertChain call that returned an error is offered again (the downloader re-delivers a failed
+	// segment); used by the fault-injection children so that the history goes on after a survivable write failure
+	Retry   int
+	Retried int
 	// per-op results
 	OpErr []string
 }
@@ -168,7 +172,12 @@ func (r *Runner) Step(i int) string {
 		if r.BC == nil {
 			return "no-chain"
 		}
-		if _, err := r.BC.InsertChain(r.B.Tree.Blocks(op.Ids)); err != nil {
+		_, err := r.BC.InsertChain(r.B.Tree.Blocks(op.Ids))
+		for k := 0; err != nil && k < r.Retry; k++ {
+			r.Retried++
+			_, err = r.BC.InsertChain(r.B.Tree.Blocks(op.Ids))
+		}
+		if err != nil {
 			out = "err:" + err.Error()
 		}
 	case "stop":
